@@ -129,6 +129,7 @@ func runC16(c *Ctx) {
 	c.Rule("C16.R3", "threshold automaton shape of the active health checker", 14)
 	c.Rule("C16.R4", "the health word of an address is the registry entry (get-or-create returns the stored value)", 1)
 	defer c16SharedWord(c)
+	defer healthRegistryAppendOnly(c, "C16.R4")
 	c.NotDecided = append(c.NotDecided, "timing of checker goroutines and timers", "behaviour of concrete interleavings (only the structural impossibility of a lost update)")
 	c.Assumptions = append(c.Assumptions, "sync/atomic semantics; sessionChecker counters are confined to the checker's own goroutine (Start loop)")
 
@@ -626,4 +627,48 @@ func fromRegistry(v ssa.Value, d int) bool {
 		return f != nil && (strings.HasSuffix(f.String(), "(*sync.Map).LoadOrStore") || strings.HasSuffix(f.String(), "(*sync.Map).Load"))
 	}
 	return false
+}
+
+// healthRegistryAppendOnly (C16.R4 / C05.R7): an address keeps its health word for the life of the process.
+// The per-address registry (healthStore) is what makes the host objects of one address - in several clusters, and across
+// host-set rebuilds of one cluster - share their conditions: the health checker keeps the host object it started with while
+// every host update hands the load balancer fresh objects. If an entry is deleted or replaced, later objects get a new
+// word: the checker marks its object unhealthy and the balancer keeps returning the address because the object it
+// consults still reads healthy. Clause: healthStore is only ever accessed through Load and LoadOrStore.
+func healthRegistryAppendOnly(c *Ctx, rule string) {
+	pkg := "pkg/upstream/cluster"
+	n := 0
+	var bad ssa.Instruction
+	badName := ""
+	for _, fn := range c.PkgFuncs(pkg) {
+		forEachInstr(fn, true, func(_ *ssa.Function, in ssa.Instruction) {
+			ci, ok := in.(ssa.CallInstruction)
+			if !ok || len(ci.Common().Args) == 0 {
+				return
+			}
+			g, ok := ci.Common().Args[0].(*ssa.Global)
+			if !ok || g.Name() != "healthStore" {
+				return
+			}
+			n++
+			switch methodName(ci.Common()) {
+			case "Load", "LoadOrStore":
+			default:
+				bad, badName = in, methodName(ci.Common())
+			}
+		})
+		// the global must not be reassigned either
+		forEachInstr(fn, true, func(f *ssa.Function, in ssa.Instruction) {
+			if st, ok := in.(*ssa.Store); ok {
+				if g, isG := st.Addr.(*ssa.Global); isG && g.Name() == "healthStore" && f.Name() != "init" {
+					bad, badName = in, "reassignment"
+				}
+			}
+		})
+	}
+	pos := token.NoPos
+	if bad != nil {
+		pos = bad.Pos()
+	}
+	c.Check(rule, "pkg/upstream/cluster.healthStore:append-only", pos, bad == nil && n >= 1, fmt.Sprintf("%d accesses, all Load/LoadOrStore", n), "the per-address health registry is modified by "+badName+": an address can get a second health word, so the object the health checker marks and the object the load balancer consults stop sharing their conditions - an unhealthy host keeps being returned (and conditions set through one host object are lost for the others)")
 }
